@@ -86,6 +86,8 @@ def universe():
     evs.append(mk("7", 1, 20, [["delegation", PK["0"], "kind=1", "00" * 64]], n))   # NIP-26: posted by 7f.. on behalf of 00..
     n += 1
     evs.append(mk("0", 1, 15, [["e", "a"], ["e", "b"], ["p", PK["0"]]], n))       # several values of one name AND another name
+    n += 1
+    evs.append(mk("7", 1, 10, [["e", "a\x00b"]], n))                                # NUL inside a tag value (the index key separator)
     return evs
 
 
